@@ -84,6 +84,18 @@ fn victims() -> Vec<(&'static str, Op, bool)> {
         ("write_streamed_commit", w(Some(0), WEntry::Opts, Declare::None, vec![7, 9]), false),
         ("write_streamed_declared_mmap", w(Some(0), WEntry::Opts, Declare::Exact, vec![10]), false),
         ("overwrite_keyed", w(Some(1), WEntry::OneShot, Declare::None, vec![]), true),
+        // the value written is one another key already holds (shared content file)
+        ("write_shared_content", {
+            let mut s = WriteSpec::simple(Some(0), 1);
+            s.entry = WEntry::OneShot;
+            Op::Write(s)
+        }, true),
+        ("write_shared_content_streamed", {
+            let mut s = WriteSpec::simple(Some(0), 1);
+            s.entry = WEntry::Opts;
+            s.chunks = vec![100];
+            Op::Write(s)
+        }, true),
         // fewer bytes than declared (the commit is rejected anyway): whatever cleaning up the
         // writer does may fail too
         ("write_short_of_declared_mmap", w(Some(0), WEntry::Opts, Declare::Off(40), vec![10]), false),
@@ -112,18 +124,19 @@ fn victims() -> Vec<(&'static str, Op, bool)> {
 fn scenario(op: &Op, fl: Fl, blob_len: usize) -> (Program, usize) {
     // key 0: multi-byte characters on every even byte offset (nothing may slice it blindly)
     let keys = vec![format!("a{}", "é".repeat(200)), "présent".to_string(), "bystander".to_string(), "afterwards".to_string()];
-    let blobs = vec![Blob::new(blob_len, 41), Blob::new(300, 42), Blob::new(17, 43)];
+    // (blobs 3 and 4 belong to the continuation alone: it must not re-create what the faulty call may have destroyed)
+    let blobs = vec![Blob::new(blob_len, 41), Blob::new(300, 42), Blob::new(17, 43), Blob::new(23, 44), Blob::new(29, 45)];
     let steps = vec![
         Step { op: Op::Write(WriteSpec::simple(Some(1), 1)), fl: Fl::Sync },
         Step { op: Op::Write(WriteSpec::simple(Some(2), 2)), fl: Fl::Async },
         Step { op: op.clone(), fl },
         // the SAME process carries on after the faulty call (faults are over by then): whatever
         // the failed call left behind in the process must not leak into later calls
-        Step { op: Op::Write(WriteSpec::simple(Some(3), 2)), fl },
+        Step { op: Op::Write(WriteSpec::simple(Some(3), 3)), fl },
         Step { op: Op::Meta { key: 3 }, fl },
         Step { op: Op::Remove { key: 3 }, fl: Fl::Sync },
         Step { op: Op::Meta { key: 3 }, fl: Fl::Sync },
-        Step { op: Op::Write(WriteSpec::simple(Some(3), 1)), fl: if fl == Fl::Sync { Fl::Async } else { Fl::Sync } },
+        Step { op: Op::Write(WriteSpec::simple(Some(3), 4)), fl: if fl == Fl::Sync { Fl::Async } else { Fl::Sync } },
         Step { op: Op::Meta { key: 3 }, fl },
         Step { op: Op::Meta { key: 1 }, fl },
     ];
@@ -285,7 +298,17 @@ impl C13 {
                     }
                 }
                 for a in op_addr(ctx, model, &step.op) {
+                    // a write or link never takes valid content away that was there before it
+                    // (other keys may hold it); only the removals may
+                    let was_valid = matches!(model.read_exp(&a), crate::model::ReadExp::Bytes(_));
                     model.adopt_content(ctx, &a);
+                    if was_valid && matches!(step.op, Op::Write(_) | Op::LinkTo(_) | Op::IdxInsert { .. }) && !matches!(model.read_exp(&a), crate::model::ReadExp::Bytes(_)) {
+                        return Err(format!(
+                            "{what}: the content at {} was complete and valid before the call and is {} after it",
+                            crate::reffmt::content_rel(a.0, &a.1),
+                            crate::model::cshort(&model.content.get(&a).cloned())
+                        ));
+                    }
                 }
                 if ctx.cache.join("index-v5").exists() {
                     model.index_dir = true;
